@@ -175,7 +175,7 @@ pub fn draw_sub(r: &mut Prng, f: &FactSet, source: usize, allow_bad: bool) -> Op
     Some(SubSpec { source, root, leaves, hash: (hm, r.next_u64()) })
 }
 
-pub fn gen_replicas(prop: &str, r: &mut Prng, seed: u64, run: u64) -> Scenario {
+pub fn gen_replicas(prop: &str, r: &mut Prng, seed: u64, run: u64, thorough: bool) -> Scenario {
     let mut cfg = GenCfg::draw(r);
     cfg.names = cfg.names.min(2); // over-long names are C07's business
     match prop {
@@ -221,6 +221,17 @@ pub fn gen_replicas(prop: &str, r: &mut Prng, seed: u64, run: u64) -> Scenario {
         }
     }
     let mut facts = gen_facts(r, &cfg);
+    // realistic configuration: the example ontology shipped with the repository (decoded by the independent
+    // decoder), and in the thorough tier occasionally the full ontology (19 484 terms)
+    if r.chance(1, 300) {
+        if let Some(f) = crate::facts::real_files(false).first() {
+            facts = f.facts.clone();
+        }
+    } else if thorough && r.chance(1, 150_000) {
+        if let Some(f) = crate::facts::real_files(true).first() {
+            facts = f.facts.clone();
+        }
+    }
     let mut drop_terms = vec![];
     if prop == "C19" && r.chance(1, 4) {
         // fault: the fact of a root term (and everything mentioning it) is lost
